@@ -97,3 +97,179 @@ Example C11_example :
   ~ w_tot l == 0 /\ spec_mean l == 1 # 4 /\ spec_var l == 7 # 16 /\
   var_cell (Fin (1 # 4)) (Fin 8) (Fin 3) (Fin 1) =x= Fin (7 # 16).
 Proof. vm_compute. repeat split; try reflexivity. intros H; discriminate H. Qed.
+
+(* ==================================================================================== *)
+(** * END TO END: the variance blocks computed from a tabulated survey
+      (Proofs/ComposeBase.v, ComposeProportions.v, ComposeVariance.v)
+
+   The theorems above are about ABSTRACT respondent lists.  Below the whole pipeline runs on one
+   survey S (Spec/Survey.v): [s_row_var S tv vr kr mr vc kc mc k rsubs csubs dn rd cd] is
+   Model/Variance.v::variance_blocks applied to the count block, the row-proportion blocks and
+   the row-base blocks the model computes from [tabulate S] for partition k of a categorical /
+   multiple-response x categorical / multiple-response cube (2-D: tv = None), with ANY inserted
+   subtotals and flags; likewise the column and table directions.  The respondent list of a cell
+   is no longer a free variable: [marks S K A] lists the respondents of the base K with indicator
+   +1 when they are in the cell A, else 0 ([C11_survey_respondent_list]).  [w_cell], [w_rowbase],
+   [w_colbase], [w_tabbase] are the weighted respondent counts of Props/C03.v::C03_survey_numbers. *)
+From CC Require Import Spec.Survey Model.CubeCounts Proofs.CubeCountsProofs
+     Proofs.ComposeBase Proofs.ComposeProportions Proofs.ComposeVariance Proofs.VarianceProofs.
+
+Theorem C11_survey_respondent_list S (K A : Survey.resp -> bool) :
+  marks S K A = map (fun r => (weight r, if A r then Pos else Zero)) (filter K S) /\
+  w_tot (marks S K A) == wsum S K /\
+  w_pos (marks S K A) == wsum S (fun r => K r && A r) /\
+  w_neg (marks S K A) == 0 /\
+  (wf_survey S -> forall w m, In (w, m) (marks S K A) -> 0 <= w).
+Proof.
+  exact (conj eq_refl (conj (marks_w_tot S K A) (conj (marks_w_pos S K A)
+        (conj (marks_w_neg S K A) (marks_weights_nonneg S K A))))).
+Qed.
+Print Assumptions C11_survey_respondent_list.
+
+(* the proportion the variance is taken around is the mean of that indicator *)
+Theorem C11_survey_proportion_is_indicator_mean S (K A : Survey.resp -> bool) p :
+  (forall r, In r S -> A r = true -> K r = true) -> ~ wsum S K == 0 ->
+  p =x= xdiv (Fin (wsum S A)) (Fin (wsum S K)) -> p =x= Fin (spec_mean (marks S K A)).
+Proof. exact (fun Hsub => proportion_is_indicator_mean S K A Hsub p). Qed.
+Print Assumptions C11_survey_proportion_is_indicator_mean.
+
+(* VARIANCE of the row proportion of base cell (i, j): the weighted variance of the membership
+   indicator over the respondents of the row base; = p (1 - p); non-negative; NaN exactly when
+   the base is empty; never infinite *)
+Theorem C11_survey_row_variance S tv vr kr mr vc kc mc k rsubs csubs dn rd cd i j :
+  t_ok tv -> cat_or_mr kr -> cat_or_mr kc -> (k < t_n tv)%nat -> wf_survey S ->
+  (i < nval mr)%nat -> (j < nval mc)%nat ->
+  let l := marks S (rowbase_in tv k vr kr mr vc kc mc i j) (cell_in tv k vr kr mr vc kc mc i j) in
+  let c := w_cell tv k vr kr mr vc kc mc S i j in
+  let b := w_rowbase tv k vr kr mr vc kc mc S i j in
+  match mnth (b_base (s_row_var S tv vr kr mr vc kc mc k rsubs csubs dn rd cd)) i j with
+  | NaN => b == 0
+  | Fin v => ~ b == 0 /\ v == spec_var l /\ v == (c / b) * (1 - c / b) /\ 0 <= v
+  | Inf _ => False
+  end.
+Proof.
+  exact (fun Ht Hr Hc Hk Hwf =>
+           row_variance_survey S tv vr kr mr vc kc mc k rsubs csubs dn rd cd Ht Hr Hc Hk Hwf i j).
+Qed.
+Print Assumptions C11_survey_row_variance.
+
+Theorem C11_survey_column_variance S tv vr kr mr vc kc mc k rsubs csubs dn rd cd i j :
+  t_ok tv -> cat_or_mr kr -> cat_or_mr kc -> (k < t_n tv)%nat -> wf_survey S ->
+  (i < nval mr)%nat -> (j < nval mc)%nat ->
+  let l := marks S (colbase_in tv k vr kr mr vc kc mc i j) (cell_in tv k vr kr mr vc kc mc i j) in
+  let c := w_cell tv k vr kr mr vc kc mc S i j in
+  let b := w_colbase tv k vr kr mr vc kc mc S i j in
+  match mnth (b_base (s_col_var S tv vr kr mr vc kc mc k rsubs csubs dn rd cd)) i j with
+  | NaN => b == 0
+  | Fin v => ~ b == 0 /\ v == spec_var l /\ v == (c / b) * (1 - c / b) /\ 0 <= v
+  | Inf _ => False
+  end.
+Proof.
+  exact (fun Ht Hr Hc Hk Hwf =>
+           column_variance_survey S tv vr kr mr vc kc mc k rsubs csubs dn rd cd Ht Hr Hc Hk Hwf i j).
+Qed.
+Print Assumptions C11_survey_column_variance.
+
+Theorem C11_survey_table_variance S tv vr kr mr vc kc mc k rsubs csubs dn i j :
+  t_ok tv -> cat_or_mr kr -> cat_or_mr kc -> (k < t_n tv)%nat -> wf_survey S ->
+  (i < nval mr)%nat -> (j < nval mc)%nat ->
+  let l := marks S (tabbase_in tv k vr kr mr vc kc mc i j) (cell_in tv k vr kr mr vc kc mc i j) in
+  let c := w_cell tv k vr kr mr vc kc mc S i j in
+  let b := w_tabbase tv k vr kr mr vc kc mc S i j in
+  match mnth (b_base (s_tab_var S tv vr kr mr vc kc mc k rsubs csubs dn)) i j with
+  | NaN => b == 0
+  | Fin v => ~ b == 0 /\ v == spec_var l /\ v == (c / b) * (1 - c / b) /\ 0 <= v
+  | Inf _ => False
+  end.
+Proof.
+  exact (fun Ht Hr Hc Hk Hwf =>
+           table_variance_survey S tv vr kr mr vc kc mc k rsubs csubs dn Ht Hr Hc Hk Hwf i j).
+Qed.
+Print Assumptions C11_survey_table_variance.
+
+(* SQUARED STANDARD ERROR = that variance / the weighted base; non-negative; NaN iff empty base *)
+Theorem C11_survey_stderr_sq S tv vr kr mr vc kc mc k rsubs csubs dn rd cd i j :
+  t_ok tv -> cat_or_mr kr -> cat_or_mr kc -> (k < t_n tv)%nat -> wf_survey S ->
+  (i < nval mr)%nat -> (j < nval mc)%nat ->
+  let cellp := cell_in tv k vr kr mr vc kc mc i j in
+  match stderr_sq (mnth (b_base (s_row_var S tv vr kr mr vc kc mc k rsubs csubs dn rd cd)) i j)
+                  (mnth (b_base (s_row_bases S tv vr kr mr vc kc mc k rsubs csubs)) i j) with
+  | NaN => w_rowbase tv k vr kr mr vc kc mc S i j == 0
+  | Fin s => ~ w_rowbase tv k vr kr mr vc kc mc S i j == 0 /\
+             s == spec_var (marks S (rowbase_in tv k vr kr mr vc kc mc i j) cellp)
+                  / w_rowbase tv k vr kr mr vc kc mc S i j /\ 0 <= s
+  | Inf _ => False
+  end /\
+  match stderr_sq (mnth (b_base (s_col_var S tv vr kr mr vc kc mc k rsubs csubs dn rd cd)) i j)
+                  (mnth (b_base (s_col_bases S tv vr kr mr vc kc mc k rsubs csubs)) i j) with
+  | NaN => w_colbase tv k vr kr mr vc kc mc S i j == 0
+  | Fin s => ~ w_colbase tv k vr kr mr vc kc mc S i j == 0 /\
+             s == spec_var (marks S (colbase_in tv k vr kr mr vc kc mc i j) cellp)
+                  / w_colbase tv k vr kr mr vc kc mc S i j /\ 0 <= s
+  | Inf _ => False
+  end /\
+  match stderr_sq (mnth (b_base (s_tab_var S tv vr kr mr vc kc mc k rsubs csubs dn)) i j)
+                  (mnth (b_base (s_tab_bases S tv vr kr mr vc kc mc k rsubs csubs)) i j) with
+  | NaN => w_tabbase tv k vr kr mr vc kc mc S i j == 0
+  | Fin s => ~ w_tabbase tv k vr kr mr vc kc mc S i j == 0 /\
+             s == spec_var (marks S (tabbase_in tv k vr kr mr vc kc mc i j) cellp)
+                  / w_tabbase tv k vr kr mr vc kc mc S i j /\ 0 <= s
+  | Inf _ => False
+  end.
+Proof.
+  exact (fun Ht Hr Hc Hk Hwf Hi Hj =>
+    conj (row_stderr_sq_survey S tv vr kr mr vc kc mc k rsubs csubs dn rd cd Ht Hr Hc Hk Hwf i j Hi Hj)
+   (conj (column_stderr_sq_survey S tv vr kr mr vc kc mc k rsubs csubs dn rd cd Ht Hr Hc Hk Hwf i j Hi Hj)
+         (table_stderr_sq_survey S tv vr kr mr vc kc mc k rsubs csubs dn Ht Hr Hc Hk Hwf i j Hi Hj))).
+Qed.
+Print Assumptions C11_survey_stderr_sq.
+
+(* SQUARED MARGIN OF ERROR = 1.959964^2 * squared standard error (row direction; the column /
+   table twins are column_moe_sq_survey / table_moe_sq_survey of Proofs/ComposeVariance.v) *)
+Theorem C11_survey_moe_sq S tv vr kr mr vc kc mc k rsubs csubs dn rd cd i j :
+  t_ok tv -> cat_or_mr kr -> cat_or_mr kc -> (k < t_n tv)%nat -> wf_survey S ->
+  (i < nval mr)%nat -> (j < nval mc)%nat ->
+  match moe_sq (stderr_sq (mnth (b_base (s_row_var S tv vr kr mr vc kc mc k rsubs csubs dn rd cd)) i j)
+                          (mnth (b_base (s_row_bases S tv vr kr mr vc kc mc k rsubs csubs)) i j)) with
+  | NaN => w_rowbase tv k vr kr mr vc kc mc S i j == 0
+  | Fin m => ~ w_rowbase tv k vr kr mr vc kc mc S i j == 0 /\
+             m == (1959964 # 1000000) * (1959964 # 1000000)
+                  * (spec_var (marks S (rowbase_in tv k vr kr mr vc kc mc i j) (cell_in tv k vr kr mr vc kc mc i j))
+                     / w_rowbase tv k vr kr mr vc kc mc S i j) /\ 0 <= m
+  | Inf _ => False
+  end.
+Proof.
+  exact (fun Ht Hr Hc Hk Hwf =>
+           row_moe_sq_survey S tv vr kr mr vc kc mc k rsubs csubs dn rd cd Ht Hr Hc Hk Hwf i j).
+Qed.
+Print Assumptions C11_survey_moe_sq.
+
+(* Non-vacuity.  Five respondents with rational weights; rows categorical with a MISSING category
+   in the middle of the payload and a valid category nobody chose; columns multiple response with
+   per-item missingness.  Cell (row 1 = category 2, item 0): base = respondents 2 and 4
+   (weights 2, 1/4), in the cell: respondent 2; p = 8/9, variance 8/81. *)
+Example C11_survey_example :
+  let S := [ mkResp [ACat 0; AMr [Sel; Oth]] (3 # 2);
+             mkResp [ACat 2; AMr [Sel; Mis]] 2;
+             mkResp [ACat 1; AMr [Sel; Sel]] 5;
+             mkResp [ACat 2; AMr [Oth; Sel]] (1 # 4);
+             mkResp [ACat 0; AMr [Oth; Oth]] 1 ] in
+  let mr := [false; true; false; false] in
+  let mc := [false; false] in
+  t_ok None /\ cat_or_mr KCat /\ cat_or_mr KMr /\ (0 < t_n None)%nat /\ wf_survey S /\
+  nval mr = 3%nat /\ nval mc = 2%nat /\
+  marks S (rowbase_in None 0 0 KCat mr 1 KMr mc 1 0) (cell_in None 0 0 KCat mr 1 KMr mc 1 0)
+    = [(2, Pos); (1 # 4, Zero)] /\
+  spec_var (marks S (rowbase_in None 0 0 KCat mr 1 KMr mc 1 0) (cell_in None 0 0 KCat mr 1 KMr mc 1 0))
+    == 8 # 81 /\
+  map (map xred) (b_base (s_row_var S None 0 KCat mr 1 KMr mc 0 [] [] false false false))
+    = [[Fin (6 # 25); Fin 0]; [Fin (8 # 81); Fin 0]; [NaN; NaN]] /\
+  xred (stderr_sq (mnth (b_base (s_row_var S None 0 KCat mr 1 KMr mc 0 [] [] false false false)) 1 0)
+                  (mnth (b_base (s_row_bases S None 0 KCat mr 1 KMr mc 0 [] [])) 1 0)) = Fin (32 # 729) /\
+  ~ w_rowbase None 0 0 KCat mr 1 KMr mc S 1 0 == 0 /\
+  w_rowbase None 0 0 KCat mr 1 KMr mc S 2 0 == 0.
+Proof.
+  cbv zeta. repeat split; try (left; reflexivity); try (right; reflexivity); try lia;
+    try (repeat constructor; discriminate); try (vm_compute; reflexivity);
+    try (vm_compute; discriminate).
+Qed.
